@@ -134,6 +134,16 @@ void ob_c20_hybrid_ctor()
         OBLIGE("C20.hybrid.ctor.strides", (size_t)rd<I.value>(a.strides_) == (layout_stride<false,R,I.value>(a.shape_)), MAX, R, I.value);
     });
 }
+// a variadic resize with FEWER extents than the fixed dimension is refused (it would otherwise zero-fill the missing extents) and changes nothing
+template <size_t MAX>
+void ob_c20_hybrid_resize_arity(na::hybrid_ndarray<float,MAX,3>& a, size_t x, size_t y)
+{
+    const auto old_shape = a.shape_;
+    const bool ok = a.resize(x, y);
+    OBLIGE("C20.hybrid.resize.too_few_extents_are_refused", !ok, MAX, 3);
+    for_<3>([&](auto I){ OBLIGE("C20.hybrid.refuse.shape_unchanged", (size_t)rd<I.value>(a.shape_) == (size_t)rd<I.value>(old_shape), MAX, 3, I.value + 10); });
+}
+template void ob_c20_hybrid_resize_arity<12>(na::hybrid_ndarray<float,12,3>&, size_t, size_t);
 #define INSTH(MAX,R) template void ob_c20_hybrid_resize<MAX,R>(na::hybrid_ndarray<float,MAX,R>&, const std::array<size_t,R>&, const std::array<size_t,R>&); \
    template void ob_c20_hybrid_ctor<MAX,R>();
 INSTH(12,1) INSTH(12,2) INSTH(24,3)
